@@ -2,7 +2,7 @@
     Depends on Model/ only, so it builds (and the correspondence check runs) even when a
     proof obligation of some property is broken. *)
 From Coq Require Import List ZArith NArith Bool.
-From CqlProxy Require Import Lib.Val Lib.Util Model.Config Model.LB Model.Codec Model.Retry Model.Frame Model.Override Model.Gate Model.Streams Model.Classify Model.Handled Model.SysTables Model.OneReply Model.Sessions Model.Prepared Model.Events Model.Topology Model.Hostile Model.Astra Model.Core Model.CoreDrive.
+From CqlProxy Require Import Lib.Val Lib.Util Model.Config Model.LB Model.Codec Model.Retry Model.Frame Model.Override Model.Gate Model.Streams Model.Classify Model.Handled Model.SysTables Model.OneReply Model.Sessions Model.Prepared Model.Events Model.Topology Model.Hostile Model.Astra Model.Core Model.CoreDrive Model.Ast Model.AstGen.
 Import ListNotations.
 Local Open Scope N_scope.
 
@@ -16,7 +16,8 @@ Definition run_prop (prop : bytes) (input : val) : val :=
   else if bytes_eqb prop (str "C12") then run_c12 input
   else if bytes_eqb prop (str "C13") then run_c13 input
   else if bytes_eqb prop (str "C02") then run_c02 input
-  else if bytes_eqb prop (str "C06") then run_c06 input
+  else if bytes_eqb prop (str "C06GEN") then run_c06ast (vN (nthv 0 input))
+  else if bytes_eqb prop (str "C06") then (if Z.eqb (vZ (nthv 0 input)) 2 then run_c06_ast input else run_c06 input)
   else if bytes_eqb prop (str "C09") then run_c09 input
   else if bytes_eqb prop (str "C10") then run_c10 input
   else if bytes_eqb prop (str "C01") then run_c01 input
@@ -39,7 +40,7 @@ Definition holds_prop (prop : bytes) (input output : val) : val :=
   else if bytes_eqb prop (str "C12") then holds_c12 input output
   else if bytes_eqb prop (str "C13") then holds_c13 input output
   else if bytes_eqb prop (str "C02") then holds_c02 input output
-  else if bytes_eqb prop (str "C06") then holds_c06 input output
+  else if bytes_eqb prop (str "C06") then (if Z.eqb (vZ (nthv 0 input)) 2 then holds_c06_ast input output else holds_c06 input output)
   else if bytes_eqb prop (str "C09") then holds_c09 input output
   else if bytes_eqb prop (str "C10") then holds_c10 input output
   else if bytes_eqb prop (str "C01") then holds_c01 input output
